@@ -30,6 +30,26 @@ CLAIMS = {
   text="Lean 4 theorems about the specification semantics, unconditional (HmsProofs.C11): break/continue act on the innermost loop (loop/while/for), every other exit passes through loops, code after an exit is skipped while earlier effects persist, return leaves the function with its value and the caller's scopes restored, a throw leaves functions at any call depth and reaches the nearest dynamically enclosing catch with message and position in the state the body left, fatal errors are not catchable, an uncaught throw is the fatal UncaughtThrow. Tie + oracle: ALL legal nestings (depth <= 2 quick, <= 3 thorough) of {loop, while, for, block, if, match arm, try, catch, call} around {break, continue, return, throw, fatal error}, each followed by code that prints locals and re-enters the construct, on both real backends == the specification, with an intact core (stack/mp/handlers) afterwards.",
   note="The VM side is tied by exhaustive bounded enumeration, not yet by a simulation theorem for control flow. Open finding V8 (exit while operands of an enclosing expression are pending) is outside the generated nestings (exits are statements).",
   technique="Lean 4 proof (specification-level unwinding lemmas) + exhaustive bounded nesting enumeration on both backends vs the Lean semantics"),
+ "C02": dict(ref="§7 C02",
+  text="Lean 4 theorems on the VM model (HmsProofs.C02, HmsProofs.C09): a bytecode height checker `hcheck` (stack heights, handler depths, frame slots, call arities per program point, in the style of JVM verification restricted to heights) is proved sound: from every state satisfying its invariant, for ALL operand values and ALL limits, a step never ends in stack underflow, handler-stack underflow, an out-of-frame memory access or a run-time label, the invariant is preserved by steps and re-established by exception dispatch into any activation, whole runs never end in one of these panics (hcheck_sound_partial, hcheck_run_sound_partial; unconditional for code without dynamic calls: run_sound_static), loops are balanced; a limit overshoot is always one of the two fatal interrupts, never a panic. `hcheck` is evaluated on the model-compiled code of every generated program (the model's instruction stream is compared verbatim with the real compiler's in C01: translation validation). Oracle: the full (type x infix/assign/prefix operator x boundary operand pair) product and typed random programs with a raised rate of faulting operands, under three limit triples, on BOTH backends: always completion or an interrupt — never a Go panic, fatal runtime error or hang.",
+  note="hcheck soundness for dynamic calls (function values, builtins) carries the hypothesis DynOK (callee arity/result count match the site) — with a kernel-checked counterexample showing heights cannot replace arity typing, which the analyzer provides (C03). Operand KIND safety (failed type assertions) is covered by the analyzer model's soundness (C03) plus the sampled operator matrix, not by a VM-level typing theorem. 'Never deadlocks' is shown for the single-core VM model and the Wait protocol model (C10/C16/C17), not for the Go scheduler. Open findings V8, V12, V28, V29 are rejected by hcheck / not generated.",
+  technique="Lean 4 proof (bytecode verifier soundness on the VM model, all values and limits) + translation validation of generated programs + crash/hang oracle on both backends"),
+ "C03": dict(ref="§7 C03",
+  text="Lean 4 theorems (HmsProofs.C03) over a model of the analyzer's core language (all expression and statement forms, function literals, globals, main): the algorithmic checker `check` — a per-construct mirror of expression.go/statement.go/topLevel.go/typing.go including error recovery, never/unknown/any propagation and the state Scopes/CurrentFunction/LoopDepth/CurrentLoopIsTerminated — is proved sound and complete w.r.t. a declarative typing relation (check_sound, check_complete, rejects_iff_ill_typed: an error-level diagnostic iff not well-typed) and the recorded types are exactly the ones the rules assign (check_types, check_types_unique), for EVERY program of the modelled core, no fragment hypothesis; TypeCheck is proved to decide an independently stated compatibility relation; one rule lemma per fault class of the statement; impl/template and trigger rules are proved as decision tables. Tie: Go analyzer verdict (sorted multiset of message classes through a total class table) and recorded types == model's, on well-typed programs, single- and multi-fault mutants and a snippet soup (about 23k programs quick, 340k thorough), and the decision tables against the testing host. Oracle: generated well-typed program => no error diagnostic and recorded types == generator's; single-fault mutant (rule x position) => >= 1 error; never a panic.",
+  note="Imports, singletons, annotations, spawn and type definitions are outside the model (answered UNSUPPORTED, <0.01 % of generated cases); warnings and hints are not compared. The model is the analyzer AFTER repairs A1-A7, A9, A10.",
+  technique="Lean 4 proof (mutual structural recursion over the syntax: checker <=> typing relation) + Go/Lean differential correspondence on typed programs and single-fault mutants + implementation-side oracle"),
+ "C09": dict(ref="§7 C09",
+  text="Lean 4 theorems on the VM model (HmsProofs.C09), for ALL code, ALL limit triples, ALL fuel: in every reachable state the operand stack is at most max(initial, limit) + quantum and the call stack at most limit + quantum (the bound is attained: kernel-checked example), every instruction pushes at most one entry; after every AddMempointer either mp < MaxMemorySize or the OutOfMemory interrupt, variable access touches exactly the cell mp - k inside [0, limit); exceeding a limit is always the fatal StackOverFlow / OutOfMemoryError interrupt, never a panic; no false stop (a fatal StackOverFlow of the poll only when a limit is really exceeded at that poll); fuel monotonicity; and for hcheck-ed code loops are balanced (same height and mp whenever an activation is back at the same ip), so loops and repeated calls of bounded depth run indefinitely. `quantum` is the constant regenerated from the Go code. Tie: programs parameterised by recursion depth, expression nesting, locals per frame and iteration count (below / at / above each limit) x limit triples on the real VM == the VM model (kind, message with the overshoot, final stack/mp); interpreter vs the specification's call-depth rule. Oracle: far above a limit -> the corresponding fatal interrupt, never a crash; far below -> completion; 200k..1M-iteration soaks end with stack=0 mp=0 handlers=0.",
+  note="The bound is in instructions between polls (quantum = 50), not wall-clock time. The interpreter has only a call-depth limit. Open finding V8 (exits under pending operands leak stack entries) is not generated.",
+  technique="Lean 4 proof (invariants over all reachable states of the VM model) + parameterised limit programs on the real backends vs the model"),
+ "C12": dict(ref="§7 C12",
+  text="Lean 4 theorems (HmsProofs.C12) about a model of DeepCast for both value libraries, for all values, types, flags and paths: an admitted value conforms (cast_sound); a conforming value is admitted unchanged (cast_identity); admission <=> the permitted conversions, written independently from the property text (cast_admits_iff); every error any map order can report addresses a non-convertible offending sub-value (cast_error_path, deepCast_error_path); well-formedness preservation and idempotence. Tie: runtime/value and interpreter/value DeepCast on generated (value, type) pairs (conforming, non-conforming at every depth, near misses) == model; in-program routes (`as`, annotated let of parse_json results, where the admitted value is then USED at its static type) on both backends; SpawnSync argument validation. Oracle: admitted => `conforms` evaluated by the Lean driver on the Go result; non-conforming => catchable cast error with an offending path (programs) or refused call (host).",
+  note="Object values and types are finite maps (well-formedness checked per case); functions are excluded (always refused); floats in the dyadic class. A refused host argument is a Go panic in SpawnSync ('refused' = the callee never runs). The JSON text layer (encoding/json) is trusted.",
+  technique="Lean 4 proof over a mutually inductive value/type model + Go/Lean differential correspondence (both libraries, direct and in-language) + conformance oracle"),
+ "C13": dict(ref="§7 C13",
+  text="Lean 4 theorems (HmsProofs.C13): `==` is reflexive and symmetric on well-formed data values, transitive without hypothesis, and holds iff the structural content (objects as finite maps) is the same (eq_iff_content); a clone denotes the same value and lives in fresh cells, and for ALL mutation sequences through the clone the original is unchanged and conversely (clone_isolated, orig_isolated, with a shallow-copy counterexample); both renderers agree (display_agree); the typed JSON round trip holds for both marshallers under a decidable JsonRepr. Tie: IsEqual / Clone / Display / Marshal / Unmarshal of BOTH Go value packages through the real constructors, and mutation sequences on clones, == model; the same laws through programs. Oracle: the laws evaluated on the Go results (symmetry on every pair, transitivity on mutated triples, clone-then-mutate, marshal -> unmarshal-under-type equal, identical Display strings of the two packages).",
+  note="The program-route JSON round trip is proved under the extra hypothesis noIntegralFloat (open finding X5, counterexample theorem included); X26 open (typed unmarshaller panics on an any-object type). JSON text layer and NFC normalisation trusted; slice sharing after `a = b` is not modelled in the cell heap (mutation arguments are freshly built).",
+  technique="Lean 4 proof (equality/content, cell-heap clone isolation over all mutation sequences, JSON tree round trip) + Go/Lean differential correspondence on both value libraries + law oracle"),
  "C18": dict(ref="§7 C18",
   text="Lean 4 theorems (HmsProofs.C18): over the three member tables regenerated on every run from ast.<Type>.Fields() and from Fields() of a representative value of both value packages (18 representatives), every member the analyzer offers exists in the VM and the interpreter with the same shape and no Fields() call panics (decide +kernel), and for every modelled row the advertised signature is the one the model is proved against; for a transcription of IndexValue and of the list/string/range/option/any-object members over BitVec 64, for EVERY list or string and EVERY 64-bit index, indexing, insert and remove yield exactly the element / list the wrap rule names or the IndexOutOfBounds interrupt, never a panic (index_total, str_index_total, insert_total, remove_total, pop/last/push/substring/repeat_total), and every modelled member called with arguments of the advertised types returns a value of the advertised type or an interrupt (member_typed_partial, index_typed). Tie: hv membercall (real constructors, real Fields(), real callbacks, both packages) == model on the exhaustive (representative x member x boundary receivers x boundary arguments) product and on random member sequences; the same cases as one-line programs through analyzer, compiler, VM and interpreter. Oracle: member present; result conforms to the regenerated advertised type; no panic/crash; wrap rule recomputed independently in Python.",
   note="Go int is 64-bit; slices shorter than 2^63 (explicit hypothesis). member_typed is partial: 92 of 156 table rows are modelled, the rest (split, replace, to_json, sort, parse_*, contains, join, float members, get_type) are judged by the oracle on boundary inputs only. The product is taken over representatives. Open: X16 (huge repeat).",
